@@ -111,7 +111,7 @@ func genC13Seq(t *rapid.T, label string) int64 {
 
 func genC13(t *rapid.T) C13Sc {
 	sc := C13Sc{SaltLen: rapid.SampledFrom([]int{0, 0, 3, 64}).Draw(t, "saltlen")}
-	n := rapid.IntRange(2, 30).Draw(t, "nops")
+	n := rapid.IntRange(2, deep(t, 30)).Draw(t, "nops")
 	for i := 0; i < n; i++ {
 		var op C13Op
 		if rapid.IntRange(0, 9).Draw(t, "op.kind") < 7 {
